@@ -40,7 +40,7 @@ def plan(tier, seed):
     by = collections.defaultdict(list)
     for r in recs: by[r["codemod"]].append(r)
     if tier == "quick":
-        per, ctxs, imps, lays = 5, ("module", "def", "nested", "twice", "twice-defs", "closure"), ("plain", "alias", "from", "second-use", "mixed"), ("lf", "crlf", "bom", "exploded", "trailing-comma", "semicolon", "keywords-reversed", "cp1252", "dataflow", "shape-double-star")
+        per, ctxs, imps, lays = 5, ("module", "def", "nested", "twice", "twice-defs", "closure"), ("plain", "alias", "from", "second-use", "mixed"), ("lf", "crlf", "bom", "exploded", "trailing-comma", "semicolon", "keywords-reversed", "cp1252", "dataflow", "shape-double-star", "formfeed")
     else:
         per, ctxs, imps, lays = 10**6, ("module", "def", "async", "method", "nested", "prelude", "twice", "twice-defs", "closure"), ("plain", "alias", "from", "second-use", "mixed"), ("lf", "crlf", "nonl", "bom", "tabs", "unicode", "exploded", "exploded-comments", "trailing-comma", "semicolon", "backslash", "formfeed", "keywords-reversed", "hanging", "cp1252", "latin-1", "shift_jis", "dataflow", "shape-double-star", "shape-star-args", "shape-extra-keyword", "shape-keyword-first")
     jobs = []
@@ -53,11 +53,18 @@ def plan(tier, seed):
             seen.setdefault(hashlib.sha1(r["input"].encode()).hexdigest()[:12], (("module", "plain", "lf"), r["input"].encode()))
             dec = gen.local_decoy(r["input"], gen.added_imports(r["input"], r["expected"]))
             if dec is not None: seen.setdefault(hashlib.sha1(dec.encode()).hexdigest()[:12], (("local-decoy-import", "plain", "lf"), dec.encode()))
-        for r in pick:
-            for label, data in variants(r["input"], ctxs, imps, lays if tier != "quick" else lays):
+        for ri, r in enumerate(pick):
+            vs = variants(r["input"], ctxs, imps, lays if tier != "quick" else lays)
+            have = {(label[0], label[2]) for label, _ in vs}
+            for label, data in vs:
                 # layouts only on plain/module+def to bound the grid
                 if label[2] != "lf" and not (label[1] == "plain" and label[0] in ("module", "def")): continue
                 if tier == "quick" and label[1] != "plain" and label[0] not in ("module", "def"): continue      # import styles x {module, def} only in the quick tier
+                if tier == "quick" and label[2] != "lf":
+                    # quick tier: each byte / call layout in ONE of the two contexts, alternating from seed to seed; the other context when the preferred one does not exist for this seed
+                    pref = ("module", "def")[(ri + lays.index(label[2].replace("legacy-encoding-", "")) if label[2].replace("legacy-encoding-", "") in lays else ri) % 2]
+                    other = "def" if pref == "module" else "module"
+                    if label[0] != (pref if (pref, label[2]) in have else other): continue
                 h = hashlib.sha1(data).hexdigest()[:12]
                 seen.setdefault(h, (label, data))
         items = sorted(seen.items())
@@ -123,11 +130,11 @@ def result_args(tool, results_text):
     return ["--defectdojo-findings-json", "{res}/r.json"], json.dumps(d)
 
 def sast_jobs(tier, seed):
-    jobs = []
+    jobs = []; k_ = 0
     for r in corpus.load():
         if r["kind"] != "sast" or not r["results"] or r["input"] == r["expected"]: continue
-        name = r["files"][0] if r["files"] else "code.py"
-        for lay in (("lf",) if tier == "quick" else ("lf", "crlf", "bom", "nonl")):
+        name = r["files"][0] if r["files"] else "code.py"; k_ += 1
+        for lay in (("lf", "bom", ("crlf", "nonl")[(k_ + seed) % 2]) if tier == "quick" else ("lf", "crlf", "bom", "nonl")):
             # layouts that keep line/column positions valid
             data = gen.layout(r["input"], lay)
             args, doc = result_args(r["tool"], r["results"])
